@@ -320,7 +320,8 @@ def check_exchange(S, rec, rng):
     path = "/" + "/".join(segs)
     if rng.random() < 0.15:
         path = "/" + path
-    target = quote(path, safe="/")
+    # sub-delims, ':' and '@' may appear literally in a path (RFC 3986 pchar); sometimes they are sent unescaped
+    target = quote(path, safe="/" if rng.random() < 0.6 else "/;=,@:!$&'()*+")
     qs = rng.choice(["", "a=1&b=%C3%A9", "x=%20%2F&y", "raw=é".encode().decode("latin1"), "q=a+b&&="])
     method = rng.choice(["GET", "POST", "PUT", "DELETE", "OPTIONS", "PATCH", "HEAD"])
     absform = rng.random() < 0.1
@@ -344,7 +345,9 @@ def check_exchange(S, rec, rng):
     version = rng.choice(["HTTP/1.0", "HTTP/1.1"])
     seen = {}
 
-    plan = rng.choice(["normal"] * 6 + ["restart_with_length", "raise_before_body", "restart_without_length"])
+    plan = rng.choice(["normal"] * 6 + ["restart_with_length", "raise_before_body", "restart_without_length", "empty_headers", "empty_headers"])
+    if plan == "empty_headers":
+        with_cl = False
 
     def app(environ, start_response):
         seen["env"] = dict(environ)
@@ -380,6 +383,8 @@ def check_exchange(S, rec, rng):
         h = [("X-App", "1"), ("X-App", "2")]
         if with_cl:
             h.append(("Content-Length", str(sum(map(len, chunks)))))
+        if plan == "empty_headers":
+            h = []
         if plan == "restart_with_length":
             # headers announced first without a length, then replaced (exc_info) before anything was written
             start_response("500 Early", [("X-App", "0")])
@@ -479,8 +484,10 @@ def check_exchange(S, rec, rng):
     code = int(status[:3])
     if resp["version"] != version or resp["code"] != code:
         return rbad("C19/status-line-differs", f"{resp['version']} {resp['code']} vs {version} {code}")
-    if [v for k, v in resp["headers"] if k == "X-App"] != ["1", "2"]:
+    if plan != "empty_headers" and [v for k, v in resp["headers"] if k == "X-App"] != ["1", "2"]:
         return rbad("C19/response-headers-differ", f"{resp['headers']!r}")
+    if sum(1 for k, v in resp["headers"] if k.lower() in ("server", "date")) > 2 or b"HTTP/1." in resp["rest"][:4000] and b"HTTP/1." not in payload:
+        return rbad("C19/response-head-repeated", f"{out[:300]!r}")
     te = [v for k, v in resp["headers"] if k.lower() == "transfer-encoding"]
     should_chunk = version == "HTTP/1.1" and not with_cl and method != "HEAD" and not (100 <= code < 200 or code in (204, 304))
     if bool(te) != should_chunk:
